@@ -134,6 +134,7 @@ fn like_values<O: Modeled + Encode + 'static, A: Encode, B: Modeled + Encode + D
 ) {
 	if !declared {
 		ctx.count("like:value-pairs-not-declared", 1);
+		ctx.count(&format!("like:not-declared:{}", label), 1);
 		return;
 	}
 	let n = if ctx.tier_thorough { 300 } else { 40 };
@@ -170,6 +171,17 @@ fn like_values<O: Modeled + Encode + 'static, A: Encode, B: Modeled + Encode + D
 				Ok((Some(a), Some(l))) if a == want && l == want => {},
 				Ok((a, l)) => ctx.oracle_fail("C16", format!("{}: bytes {} decode as the target from a slice but from a reader ok={} / under a depth limit of 8 ok={}", label, &hex_or_dash(&bytes)[..hex_or_dash(&bytes).len().min(40)], a.is_some(), l.is_some())),
 				Err(_) => ctx.oracle_fail("C16", format!("{}: decoding the alias bytes from a reader / under a depth limit panicked", label)),
+			}
+		}
+		// ... and out of a shared buffer (`decode_from_bytes`, zero-copy for `Bytes` fields)
+		#[cfg(feature = "bytes-f")]
+		if let Some((b, 0)) = &dv {
+			let want = val_string(b, true);
+			let r = std::panic::catch_unwind(std::panic::AssertUnwindSafe(|| {
+				parity_scale_codec::decode_from_bytes::<B>(bytes::Bytes::copy_from_slice(&bytes)).ok().map(|x| val_string(&x, true))
+			}));
+			if !matches!(&r, Ok(Some(x)) if *x == want) {
+				ctx.oracle_fail("C16", format!("{}: bytes {} decode as the target from a slice but not (or differently) with decode_from_bytes", label, &hex_or_dash(&bytes)[..hex_or_dash(&bytes).len().min(60)]));
 			}
 		}
 		// oracle (C16)
@@ -305,5 +317,12 @@ pub fn like_stream(ctx: &mut Ctx) {
 		like_case!(ctx; Vec<u8>, bytes::Bytes => Vec<u8>, false, |o| bytes::Bytes::from(o.clone()));
 		like_case!(ctx; Vec<u8>, &'static [u8] => bytes::Bytes, false, |o| &o[..]);
 		like_case!(ctx; Vec<u8>, Vec<u8> => bytes::Bytes, false, |o| o.clone());
+		// byte strings (often empty ones) FOLLOWED by something, as shared buffers
+		like_case!(ctx; (Vec<u8>, u32), (Vec<u8>, u32) => (bytes::Bytes, u32), false, |o| o.clone());
+		like_case!(ctx; (Vec<u8>, Vec<u8>), (Vec<u8>, Vec<u8>) => (bytes::Bytes, bytes::Bytes), false, |o| o.clone());
+		like_case!(ctx; (Vec<u8>, Vec<u8>), (&'static [u8], &'static Vec<u8>) => (bytes::Bytes, bytes::Bytes), false, |o| (&o.0[..], &o.1));
+		like_case!(ctx; Vec<Vec<u8>>, Vec<Vec<u8>> => Vec<bytes::Bytes>, false, |o| o.clone());
+		like_case!(ctx; [Vec<u8>; 3], [Vec<u8>; 3] => [bytes::Bytes; 3], false, |o| o.clone());
+		like_case!(ctx; [Vec<u8>; 3], [&'static [u8]; 3] => [bytes::Bytes; 3], false, |o| [&o[0][..], &o[1][..], &o[2][..]]);
 	}
 }
